@@ -4,6 +4,11 @@ go 1.23
 
 require github.com/absfs/absnfs v0.0.0
 
-require github.com/absfs/absfs v1.0.0
+require (
+	github.com/absfs/absfs v1.0.0
+	github.com/absfs/memfs v1.1.0
+)
+
+require github.com/absfs/inode v1.1.0 // indirect
 
 replace github.com/absfs/absnfs => /repo
